@@ -85,11 +85,11 @@ Definition new_cbd (f : flags) (m : meta) : res cbd :=
   Ok (mkCbd n' (m_n m) (m_body m) (m_table m) (m_moments m) 0 (mkNd 0 0 None)).
 
 (* NumDecompressor::decompress_unsigneds_limited: state is updated only on success *)
-Definition nd_batch (w : N) (c : cbd) (limit : N) (eoi : bool) (s : bits)
+Definition nd_batch (w tb : N) (c : cbd) (limit : N) (eoi : bool) (s : bits)
   : res (list N * bool * nd_state * bits) :=
   let nd := c_nd c in
   if c_n c <? nd_nproc nd then Panic else
-  let out := read_batch w (c_table c) (c_n c - nd_nproc nd) (nd_incomplete nd) limit eoi s in
+  let out := read_batch w tb (c_table c) (c_n c - nd_nproc nd) (nd_incomplete nd) limit eoi s in
   match b_status out with
   | SPanic => Panic
   | SErr k => Err k
@@ -103,10 +103,10 @@ Definition nd_batch (w : N) (c : cbd) (limit : N) (eoi : bool) (s : bits)
 
 (* ChunkBodyDecompressor::decompress_next_batch.
    Returns the numbers (raw), whether the chunk body is finished, the new cbd, the rest *)
-Definition cbd_batch (d : dtype) (f : flags) (c : cbd) (limit : N) (eoi : bool) (s : bits)
+Definition cbd_batch (d : dtype) (f : flags) (tb : N) (c : cbd) (limit : N) (eoi : bool) (s : bits)
   : res (list Z * bool * cbd * bits) :=
   let pd := pdt f d in
-  do '(us, fin, nd', s1) <- nd_batch (ubits pd) c limit eoi s;
+  do '(us, fin, nd', s1) <- nd_batch (ubits pd) tb c limit eoi s;
   if ford f =? 0 then
     Ok (map (of_u d) us, fin,
         mkCbd (c_n c) (c_total c) (c_body c) (c_table c) (c_moments c)
@@ -178,7 +178,7 @@ Definition r_step (d : dtype) (st : rstate) (o : rop) : rstate * rout :=
     if r_term st then (st, ROErr InvalidArgument) else
     match r_flags st, r_cbd st with
     | Some f, Some c =>
-      match cbd_batch d f c (pow2 64 - 1) true (stream st) with
+      match cbd_batch d f (total_bits st) c (pow2 64 - 1) true (stream st) with
       | Ok (xs, _, _, s') =>
         (mkR (r_bytes st) (pos_after st s') (r_flags st) None (r_term st), RONums xs)
       | Err k => (st, ROErr k)
@@ -212,7 +212,7 @@ Definition r_step (d : dtype) (st : rstate) (o : rop) : rstate * rout :=
       match r_cbd st with
       | None => next_meta d st f
       | Some c =>
-        match cbd_batch d f c limit false (stream st) with
+        match cbd_batch d f (total_bits st) c limit false (stream st) with
         | Ok (xs, fin, c', s') =>
           if is_nil xs then
             if fin
